@@ -296,6 +296,43 @@ func runC17(w *mon.W) {
 					bans = append(bans, randString(r, "ATGC", bl))
 				}
 			}
+			if len(bans) > 0 && len(bans) < 4 && r.Intn(3) == 0 {
+				// a degenerate site written out by hand: two bans that differ in one letter only (the last, the first or
+				// any), and now and then the same ban twice
+				b := []byte(bans[r.Intn(len(bans))])
+				if r.Intn(2) == 0 && len(db) >= 8 {
+					// the longest bans of the scope, taken from the sequence so that a window would hold them
+					bl := 7 + r.Intn(2)
+					st := r.Intn(len(db) - bl + 1)
+					b = []byte(db[st : st+bl])
+					bans = append(bans, string(b))
+				}
+				pos := []int{len(b) - 1, len(b) - 1, 0, r.Intn(len(b))}[r.Intn(4)]
+				switch r.Intn(6) {
+				case 0: // the same ban twice
+				case 1, 2: // the partner letter (A<->T, G<->C)
+					b[pos] = "TACG"[strings.IndexByte("ATGC", b[pos])]
+				default:
+					b[pos] = "ATGC"[(strings.IndexByte("ATGC", b[pos])+1+r.Intn(3))%4]
+				}
+				if r.Intn(2) == 0 {
+					bans = append(bans, string(b))
+				} else {
+					bans = append([]string{string(b)}, bans...)
+				}
+				constr = "random, with a twin ban"
+			}
+			if n >= 6 && r.Intn(4) == 0 {
+				// a ban from the very end of the sequence, where it wraps around to its beginning
+				bl := 2 + r.Intn(7)
+				if bl <= len(db) {
+					st := len(db) - bl - r.Intn(min(n, len(db)-bl+1))
+					if st < 0 {
+						st = 0
+					}
+					bans = append(bans, db[st:st+bl])
+				}
+			}
 		} else {
 			// adversarial: window k starts at s; later ban B lies inside it; earlier ban A lies in the
 			// region newly exposed after the window has slid past B.
